@@ -11,6 +11,7 @@ import (
 	"sync/atomic"
 	"time"
 
+	"github.com/tychoish/fun"
 	"github.com/tychoish/fun/pubsub"
 
 	"verif/kit"
@@ -312,10 +313,30 @@ func c08Run(r *kit.Run, idx int64, rng *rand.Rand) {
 		var pwg sync.WaitGroup
 		var published atomic.Int64
 		pspeed := kit.RandSpeed(rng)
+		viaPopulate := make([]bool, npub) // this publisher hands an iterator to Broker.Populate
+		for p := range viaPopulate {
+			viaPopulate[p] = rng.IntN(4) == 0
+		}
 		for p := 0; p < npub; p++ {
 			pwg.Add(1)
 			go func(p int) {
 				defer pwg.Done()
+				if viaPopulate[p] {
+					ids := make([]uint32, nmsg)
+					for m := range ids {
+						ids[m] = uint32(p+1)<<16 | uint32(m+1)
+					}
+					// every message counts as called when Populate is started:
+					// a subscriber that joined later than that is owed nothing
+					c := kit.Stamp()
+					_ = h.b.Populate(fun.SliceIterator(ids)).Run(ctx)
+					ret := kit.Stamp()
+					for _, id := range ids {
+						pubs[p] = append(pubs[p], pubRec{id: id, call: c, ret: ret})
+					}
+					published.Add(int64(nmsg))
+					return
+				}
 				for m := 0; m < nmsg; m++ {
 					id := uint32(p+1)<<16 | uint32(m+1)
 					c := kit.Stamp()
